@@ -183,7 +183,12 @@ verus! {
 #[verifier::external_body]
 pub fn with_ref<T: ToTok>(source: &T, is_ref: bool) -> TokenStream { unimplemented!() }
 #[verifier::external_body]
-pub fn expand_self(input: &Generics, to: &Type) -> Generics { unimplemented!() }
+pub fn with_ref_ty(ty: &Type, is_ref: bool) -> TokenStream { unimplemented!() }
+#[verifier::external_body]
+pub fn ref_operand(ty: &Type) -> TokenStream { unimplemented!() }
+// syn_utils::expand_self: replaces the type `Self` by `to` (syn visitor, out of reach)
+#[verifier::external_body]
+pub fn expand_self<T>(input: &T, to: &Type) -> T { unimplemented!() }
 }
 #[verus_verify]
 impl UnaryOp {
@@ -200,19 +205,19 @@ impl BinaryOp {
 //@   attr #[verus_verify]
 //@   rewrite R11
 //@   before for field in fields ## #[verus_spec(fi => invariant wcb.gps == gps_of(&generics), kind == DeriveItemKind::UnaryOp(op), use_bounds == entry_phase(start(&generics), e).go, fi.seq().len() == fields@.len(), forall|i: int| 0 <= i < fields@.len() ==> *fi.seq()[i] == fields@[i], 0 <= fi.index@ <= fields@.len(), same(&wcb, fields_phase(entry_phase(start(&generics), e), use_bounds, &gps_of(&generics), fields@, fi.index@, kind)))]
-//@   before let wheres = wcb.build( ## proof! { assert(same(&wcb, expected_fields(&generics, e, fields@, kind))); }
+//@   before wcb.expand_self(&this_ty); ## proof! { assert(same(&wcb, expected_fields(&generics, e, fields@, kind))); }
 //@ end
 //@ fn item_type.rs build_assign_op
 //@   attr #[verus_verify]
 //@   rewrite R11
 //@   before for field in fields ## #[verus_spec(fi => invariant wcb.gps == gps_of(&generics), kind == DeriveItemKind::AssignOp(op), use_bounds == entry_phase(start(&generics), e).go, fi.seq().len() == fields@.len(), forall|i: int| 0 <= i < fields@.len() ==> *fi.seq()[i] == fields@[i], 0 <= fi.index@ <= fields@.len(), same(&wcb, fields_phase(entry_phase(start(&generics), e), use_bounds, &gps_of(&generics), fields@, fi.index@, kind)))]
-//@   before let wheres = wcb.build( ## proof! { assert(same(&wcb, expected_fields(&generics, e, fields@, kind))); }
+//@   before wcb.expand_self(&this_ty); ## proof! { assert(same(&wcb, expected_fields(&generics, e, fields@, kind))); }
 //@ end
 //@ fn item_type.rs build_binary_op
 //@   attr #[verus_verify]
 //@   rewrite R11
 //@   before for field in fields ## #[verus_spec(fi => invariant wcb.gps == gps_of(&generics), kind == DeriveItemKind::BinaryOp(op), use_bounds == entry_phase(start(&generics), e).go, fi.seq().len() == fields@.len(), forall|i: int| 0 <= i < fields@.len() ==> *fi.seq()[i] == fields@[i], 0 <= fi.index@ <= fields@.len(), same(&wcb, fields_phase(entry_phase(start(&generics), e), use_bounds, &gps_of(&generics), fields@, fi.index@, kind)))]
-//@   before let wheres = wcb.build( ## proof! { assert(same(&wcb, expected_fields(&generics, e, fields@, kind))); }
+//@   before wcb.expand_self(&this_ty); ## proof! { assert(same(&wcb, expected_fields(&generics, e, fields@, kind))); }
 //@ end
 verus! {
 pub open spec fn use_bounds_outer(g: &Generics, e: &DeriveEntry) -> bool { entry_phase(start(g), e).go }
